@@ -39,10 +39,18 @@ class Opt:
 
 class TD:
     """datetime.timedelta as integer microseconds."""
-    __slots__ = ('us',)
+    __slots__ = ('us', 'parts')
 
-    def __init__(self, us):
+    def __init__(self, us, parts=None):
         self.us = us
+        self.parts = parts      # optional normalised (days, seconds, microseconds) the value was built from
+
+    @staticmethod
+    def decomposed(prefix):
+        """A symbolic timedelta given by its normalised components; returns (td, range constraint)."""
+        D, s, m = z3.Int(prefix + '_days'), z3.Int(prefix + '_seconds'), z3.Int(prefix + '_microseconds')
+        td = TD(86400 * 10**6 * D + 10**6 * s + m, (D, s, m))
+        return td, z3.And(0 <= s, s < 86400, 0 <= m, m < 10**6)
 
     def __repr__(self):
         return f'TD({self.us})'
